@@ -99,6 +99,29 @@ def _encoder_roles(enc):
     return m
 
 
+def _xor_loops(fnode, how):
+    """Loops `for i, c in enumerate(P): <sink>(c ^ K[i % 4])`, whatever the loop variables are called; sink = X.append(...) or X[i] = ...  Returns [(P, K)]."""
+    out = []
+    for n in walk_no_defs(fnode):
+        if not (isinstance(n, ast.For) and isinstance(n.iter, ast.Call) and call_name(n.iter) == 'enumerate' and len(n.iter.args) == 1
+                and isinstance(n.target, ast.Tuple) and len(n.target.elts) == 2 and all(isinstance(x, ast.Name) for x in n.target.elts)):
+            continue
+        iv, cv = n.target.elts[0].id, n.target.elts[1].id
+
+        def is_xor(e):
+            if isinstance(e, ast.BinOp) and isinstance(e.op, ast.BitXor):
+                for a, b in ((e.left, e.right), (e.right, e.left)):
+                    if isinstance(a, ast.Name) and a.id == cv and isinstance(b, ast.Subscript) and src(b.slice).replace(' ', '') == f'{iv}%4':
+                        return src(b.value)
+            return None
+        for w in walk_no_defs(n):
+            if how == 'append' and isinstance(w, ast.Call) and isinstance(w.func, ast.Attribute) and w.func.attr == 'append' and len(w.args) == 1 and is_xor(w.args[0]):
+                out.append((src(n.iter.args[0]), is_xor(w.args[0])))
+            if how == 'store' and isinstance(w, ast.Assign) and is_xor(w.value) and isinstance(w.targets[0], ast.Subscript) and src(w.targets[0].slice) == iv:
+                out.append((src(n.iter.args[0]), is_xor(w.value)))
+    return out
+
+
 def _writer_roles(w):
     m = {}
     for n in walk_no_defs(w.node):
@@ -294,14 +317,18 @@ def rule_b(chk, f, enc):
     ok = bool(keyapp) and bool(plain) and all(pat.guarded_by(genc, n, mT) is None for n in keyapp) and all(pat.guarded_by(genc, n, mF) is None for n in plain)
     chk.ob('b', enc.ref, 'a masked frame carries its key and a transformed payload; an unmasked frame carries the payload as is', ok, loc(enc, enc.node),
            discr='encoder-mask-branches')
-    xor = any(src(c).replace(' ', '') == 'tail.append(c^masking_key[i%4])' for c in calls_in(enc.node))
-    unx = any(isinstance(n, ast.Assign) and src(n.value).replace(' ', '') == 'c^masking_key[i%4]' for n in walk_no_defs(f.node))
+    xor = bool(_xor_loops(enc.node, 'append'))
+    unx = bool(_xor_loops(f.node, 'store'))
     chk.ob('b', f.ref, 'masking and unmasking use the same transformation (byte XOR key[i mod 4])', xor and unx, loc(f, f.node), discr='xor-agree')
 
 
 def rule_c(chk, cls):
     n_sites = 0
+    from .common import snapshot_view
     for m in cls.methods.values():
+        if getattr(m, 'absorbed', False):
+            continue
+        m = snapshot_view(m)        # `sock = self._sock` … `sock is None`
         for r, c in pat.method_calls(m.node, '_encode_tail'):
             n_sites += 1
             ok = r == 'self' and len(c.args) == 2 and src(c.args[1]).replace(' ', '') in ('self._sockisNone',)
@@ -414,11 +441,40 @@ def rule_e(repo, chk, cls, f):
     for n in outs:
         q = pat.guarded_by(gw, n, pat.test_edge(lambda t, pol: pol == 'F' and src(t) == 'self._close_sent'))
         chk.ob('e', w.ref, 'no data frame is written after a close frame was sent', q is None, loc(w, n.ast), discr='write-close-guard')
-    first = [n for n in gw.nodes if n.kind == 'stmt' and isinstance(n.ast, ast.Assign) and src(n.ast.targets[0]) == 'first']
-    ok = any(src(n.ast.value) in ('128', '0x80') for n in first) and \
-        any(isinstance(n.ast, ast.AugAssign) and src(n.ast.target) == 'first' and src(n.ast.value) == '1' for n in gw.nodes if n.kind == 'stmt') and \
-        any(isinstance(n.ast, ast.AugAssign) and src(n.ast.target) == 'first' and src(n.ast.value) == '2' for n in gw.nodes if n.kind == 'stmt')
-    chk.ob('e', w.ref, 'written frames are FIN frames with opcode 1 (text) for str and 2 (binary) otherwise', ok, loc(w, w.node), discr='write-opcodes')
+    # the first byte of the written frame, evaluated for a str and for a non-str payload (sa/concrete.py): 0x81 and 0x82
+    from sa import concrete
+    got = {}
+    tests = [n for n in gw.nodes if n.kind == 'test' and isinstance(n.ast, ast.Call) and call_name(n.ast) == 'isinstance' and len(n.ast.args) == 2 and src(n.ast.args[1]) == 'str']
+    fv = None
+    for n in outs:
+        for _r, c in pat.method_calls(n.ast, '_write'):
+            if c.args and isinstance(c.args[0], ast.Name):
+                fv = c.args[0].id
+
+    def first_byte_expr(n):
+        a = n.ast
+        if n.kind != 'stmt':
+            return None
+        if isinstance(a, ast.Expr) and isinstance(a.value, ast.Call) and src(a.value.func) == f'{fv}.append' and len(a.value.args) == 1:
+            return a.value.args[0]
+        if isinstance(a, ast.Assign) and src(a.targets[0]) == fv and isinstance(a.value, ast.Call) and call_name(a.value) == 'bytearray' and len(a.value.args) == 1 \
+                and isinstance(a.value.args[0], (ast.List, ast.Tuple)) and a.value.args[0].elts:
+            return a.value.args[0].elts[0]
+        return None
+    for t in tests[:1]:
+        for isstr in (True, False):
+            env = {'$' + src(t.ast): isstr}
+            # the opening byte may be prepared before the test (`first = 0x80`): plain constant assignments of the handler are part of the environment
+            for n in gw.nodes:
+                if n.kind == 'stmt' and isinstance(n.ast, ast.Assign) and len(n.ast.targets) == 1 and isinstance(n.ast.targets[0], ast.Name) and isinstance(n.ast.value, ast.Constant) \
+                        and isinstance(n.ast.value.value, int) and Q.reaches(n, t) and not Q.reaches(t, n):
+                    env[n.ast.targets[0].id] = n.ast.value.value
+            env2, at = concrete.run(w, env, stop=lambda n, _e: first_byte_expr(n) is not None, start=t)
+            e_ = first_byte_expr(at) if at is not None else None
+            got[isstr] = concrete.ev(e_, env2) if e_ is not None else None
+    ok = got.get(True) == 0x81 and got.get(False) == 0x82
+    chk.ob('e', w.ref, 'written frames are FIN frames with opcode 1 (text) for str and 2 (binary) otherwise', ok, loc(w, w.node),
+           detail=f'first byte: str -> {got.get(True)!r}, other -> {got.get(False)!r}', discr='write-opcodes')
     txt = [n for n in gw.nodes if n.kind == 'stmt' and isinstance(n.ast, ast.AugAssign) and src(n.ast.target) == 'first' and src(n.ast.value) == '1']
     for n in txt:
         q = pat.guarded_by(gw, n, pat.test_edge(lambda t, pol: pol == 'T' and isinstance(t, ast.Call) and call_name(t) == 'isinstance' and len(t.args) == 2 and src(t.args[1]) == 'str'))
